@@ -10,6 +10,7 @@ CONSTANTS
   PPInterval = 2
   TestMode = TRUE
   FaultKinds <- NoFaults
+  MaxTimed = 2
   MaxEternal = 2
 INVARIANT TypeOK
 INVARIANT Barrier
